@@ -1,0 +1,93 @@
+//! Verification hooks (cargo feature `verif-hooks`, off by default): an event log
+//! and seeded delays at named points inside the worker closures. Nothing in here
+//! is compiled unless the feature is enabled.
+//!
+//! Environment:
+//! * `BITA_VERIF_LOG=<path>`: append one line `<seq> <B|E> <site> <key> <thread>`
+//!   per event (B = site entered, E = site left), globally ordered by `seq`.
+//! * `BITA_VERIF_DELAY=<seed>,<max_us>[,<site filter>]`: on entering a site whose
+//!   name contains the filter, sleep for a time derived from (seed, site, key),
+//!   so that a given chunk is deterministically slow or fast within one run.
+use std::io::Write;
+use std::sync::atomic::{AtomicU64, Ordering};
+use std::sync::{Mutex, OnceLock};
+
+static SEQ: AtomicU64 = AtomicU64::new(0);
+static LOG: OnceLock<Option<Mutex<std::fs::File>>> = OnceLock::new();
+static DELAY: OnceLock<Option<(u64, u64, String)>> = OnceLock::new();
+
+fn mix(mut x: u64) -> u64 {
+    x ^= x >> 33;
+    x = x.wrapping_mul(0xff51_afd7_ed55_8ccd);
+    x ^= x >> 33;
+    x = x.wrapping_mul(0xc4ce_b9fe_1a85_ec53);
+    x ^ (x >> 33)
+}
+
+/// Fingerprint of a chunk's data (FNV-1a over length and bytes), used as event key.
+pub fn key_of(data: &[u8]) -> u64 {
+    let mut h: u64 = 0xcbf2_9ce4_8422_2325 ^ data.len() as u64;
+    for b in data {
+        h = (h ^ *b as u64).wrapping_mul(0x0000_0100_0000_01b3);
+    }
+    h
+}
+
+fn log_event(kind: char, site: &'static str, key: u64) {
+    let log = LOG.get_or_init(|| {
+        let p = std::env::var_os("BITA_VERIF_LOG")?;
+        let f = std::fs::OpenOptions::new()
+            .create(true)
+            .append(true)
+            .open(p)
+            .ok()?;
+        Some(Mutex::new(f))
+    });
+    if let Some(log) = log {
+        let mut f = log.lock().unwrap();
+        let seq = SEQ.fetch_add(1, Ordering::SeqCst);
+        let _ = writeln!(
+            f,
+            "{} {} {} {:016x} {:?}",
+            seq,
+            kind,
+            site,
+            key,
+            std::thread::current().id()
+        );
+    }
+}
+
+/// Guard returned by [`span`]; logs the end event when dropped.
+pub struct Span {
+    site: &'static str,
+    key: u64,
+}
+
+impl Drop for Span {
+    fn drop(&mut self) {
+        log_event('E', self.site, self.key);
+    }
+}
+
+/// Record that `site` was entered for `data`, possibly sleep, and return a guard
+/// which records when the site is left.
+pub fn span(site: &'static str, data: &[u8]) -> Span {
+    let key = key_of(data);
+    log_event('B', site, key);
+    let delay = DELAY.get_or_init(|| {
+        let v = std::env::var("BITA_VERIF_DELAY").ok()?;
+        let mut it = v.splitn(3, ',');
+        let seed = it.next()?.parse().ok()?;
+        let max_us = it.next()?.parse().ok()?;
+        Some((seed, max_us, it.next().unwrap_or("").to_string()))
+    });
+    if let Some((seed, max_us, filter)) = delay {
+        if *max_us > 0 && site.contains(filter.as_str()) {
+            let h = site.bytes().fold(*seed, |a, b| mix(a ^ b as u64));
+            let us = mix(h ^ key) % (*max_us + 1);
+            std::thread::sleep(std::time::Duration::from_micros(us));
+        }
+    }
+    Span { site, key }
+}
